@@ -104,6 +104,13 @@ def run_case(case):
     t_start = 0.3
     delay = rng.choice([0.01, 0.1, 0.3])
     t_claim = t_start + delay
+    # the application's listener: subscribed right away or only once the CA is operational (what it is bound to must follow the CA)
+    heard = []
+    lsn = lambda priority, pgn, sa, timestamp, data: heard.append((sim.now, pgn, sa))
+    if prng_.random() < 0.5:
+        ca.subscribe(lsn)
+    else:
+        sim.at(t_claim + 0.3, ca.subscribe, lsn)
     if hist not in ('bypass', 'bypass_lose'):
         sim.at(t_start, ca.start, delay)
     events = []
@@ -140,6 +147,17 @@ def run_case(case):
             lost[pref + 1] = t_2
     if hist in ('veto_lose', 'lose_after'):
         lost[pref] = events[0]
+    # after every scripted loss somebody talks to the address the CA has just lost: a transport request, a data packet and a PGN request.
+    # Whatever the stack answers would be a frame from an address the CA no longer holds
+    def poke(addr):
+        if fd:
+            X.send(C.make_id(6, 0, C.PF_FD_TP_CM, addr, 0x71), C.fdcm_rts(1, 200, 255, 0xD000), fd)
+        else:
+            X.send(C.make_id(6, 0, C.PF_TP_CM, addr, 0x71), C.tpcm_rts(20, 255, 0xD000))
+        X.send(C.make_id(6, 0, C.PF_REQUEST, addr, 0x71), C.request_payload(0xFECA), fd)
+    for a_lost, t_lost in list(lost.items()):
+        sim.at(t_lost + 0.3, poke, a_lost)
+        sim.at(t_lost + 1.4, poke, a_lost)
     # probe instants
     probes = [0.1, t_start + delay / 2, t_claim + 0.0005, t_claim + 0.1, t_claim + 0.26, t_claim + 0.5]
     for e in events:
